@@ -98,6 +98,15 @@ CHECKS = {
              'number, addressing and content of replies and the invocation log are compared with a dispatch oracle coded '
              'from the property statement.',
         note='DBusObjectHandler is driven on a recording connection stub; ' + TRUST),
+    'C12': dict(
+        category='exploration', design_ref='DESIGN.md section 3 C12',
+        technique='stateful add/remove/deliver histories (Hypothesis) against an independent reference matcher; rule-text round trip through a reference parser',
+        text='Rule sets over all constraint keys and messages built from pools containing matches, single-key near-misses and '
+             'prefix-sharing siblings are run as add/remove/deliver histories on MessageRouter, through '
+             'DBusClientConnection.addMatch/delMatch (rule text parsed back by a reference match-rule parser), through '
+             'proxy signal subscriptions with matching and mismatching signatures, and through Bus.dbus_AddMatch; after '
+             'each delivery the invoked callbacks must equal the active rules the reference matcher accepts.',
+        note=TRUST),
     'C18': dict(
         category='exploration', design_ref='DESIGN.md section 3 C18',
         technique='bounded-exhaustive string enumeration + Hypothesis, differential against hand-written grammar recognisers',
